@@ -421,6 +421,14 @@ func Values(t *T, lvl int) []V {
 	if lvl < 0 {
 		lvl = 0
 	}
+	if t.Named != "" && t.K == KStruct {
+		// recursive types: unfold at most twice below the outermost occurrence
+		if valDepth[t] >= 2 {
+			return []V{Zero(t)}
+		}
+		valDepth[t]++
+		defer func() { valDepth[t]-- }()
+	}
 	var out []V
 	switch t.K {
 	case KBool:
@@ -592,6 +600,8 @@ func Values(t *T, lvl int) []V {
 	}
 	return dedupe(t, out)
 }
+
+var valDepth = map[*T]int{}
 
 func timeVals(lvl int) []V {
 	out := []V{{Sec: zeroTimeSec}, {Sec: 1700000000, Ns: 123456789}}
